@@ -323,7 +323,7 @@ def c_frames_to_endpoint(ft2: int, s2: int, fa: bool, fb: bool, fc: bool, n: int
         stats.note(True, {'role': ROLE, 'ctx': ctx, 'ft2': ft2, 'sid2': sid2, 'second': SECOND})
         t.eof()
         loop.run_ready()
-        if loop.exc:
+        if loop.errors():
             devs.append('loop-exception-handler-called')
         if not mine.done():
             devs.append('own-request-left-pending-after-close')
@@ -385,6 +385,6 @@ def c_app_failure(how: int, second_ok: bool) -> str:
         stats.note(True, {'adapter': ADAPTER, 'entry': ENTRY, 'how': how})
         t.eof()
         loop.run_ready()
-        if loop.exc:
+        if loop.errors():
             devs.append('loop-exception-handler-called')
     return pick_dev(devs, ALLOWED)
